@@ -80,6 +80,46 @@ CLAIMED = {
              "to the source by regenerated constants, the dumped LUT and a differential run (exhaustive over 2^24 words in the thorough tier); "
              "exhaustive evaluation of the statements on the compiled code as the violation search.",
         design="§4 C04", technique="Coq proof (GF(2) linearity + sweeps over 4096 data words / 2048 syndromes / 12951 patterns) + extracted-model differential"),
+    "C10": dict(
+        text="Machine-checked proof (Coq), polymorphic in the element type hence for all frame contents: the interleaver index is "
+             "pi(i) = (45i + 92i^2) mod 368 at every instantiation site, a permutation (indeed an involution) of 0..367; interleave/deinterleave "
+             "place every element as specified and are mutually inverse; the packed-byte variants equal the bit variants; the 46-byte sequence "
+             "is the M17 sequence; soft (int8 with wrap), bit and byte randomizers are involutive and agree with each other and with XOR by the "
+             "sequence (the one exception, soft value -128, is stated).  Tie: regenerated constants (every site), position-tagged frames through "
+             "all seven variants (exhaustive over positions), random and extreme contents.",
+        design="§4 C10", technique="Coq proof (computed permutation facts lifted polymorphically; bit-level lemmas) + extracted-model differential"),
+    "C11": dict(
+        text="Machine-checked proof (Coq) for all contents and all prior contents of the output buffer: for the four modem geometries "
+             "(P1/488, P2/296, P2/402, P3/420) puncture keeps exactly the positions of the cyclically repeated matrix, in order, 368/272/368/368 "
+             "bits (the BERT geometry cuts the 369th kept position - stated); make_p1 is the specification's 61-entry matrix; puncture_bytes "
+             "agrees with puncture on bits; depuncture defines EVERY output position independently of the buffer's previous content (fix 0a665a2) "
+             "and depuncture after puncture is the identity on kept positions and 0 elsewhere.  Tie: regenerated matrices and call-site geometries, "
+             "position-tagged and random contents, pre-filled output buffers.",
+        design="§4 C11", technique="Coq proof (loop invariants over the C++ loop guards, mask/keep/spread specification) + extracted-model differential"),
+    "C03": dict(
+        category="other",
+        text="PARTIAL.  Proved in Coq: the demodulator's sync/framing control logic, as a step function over its discrete members driven by one "
+             "observation record per sample, invokes the frame decoder exactly once per 192-symbol period on the 184 payload symbols with sync type STREAM, "
+             "never unlocks and keeps missing_sync_count <= 1 along every observation sequence in which each period either finds the stream sync in the "
+             "search window or coasts on a low Viterbi cost (c03_tracking_one_decode_per_frame), the EOT path, the range invariant, and the structural "
+             "constants (LLR width, framer size, polarity).  NOT proved, only run end to end: that the floating-point estimators (Kalman clock, deviation/"
+             "offset, correlator) deliver such observations and bit-exact frames over the channel envelope - a spec-derived transmitter, a closed-form RRC "
+             "channel (timing phase, ppm, gain, DC, noise, lead-in history) and the real M17Demodulator in a fresh process per transmission, oracle = the "
+             "property statement; the control model is tied by per-sample trace inclusion on the public members.",
+        design="§4 C03, §9", technique="Coq proof of the control-logic model + per-sample trace inclusion + end-to-end channel rig (test)",
+        note="Partial by design (DESIGN §9).  Floating-point convergence is tested, not proved; rounding is not modelled.  One known finding "
+             "(slowly converging deviation estimator corrupts a late frame at gain 0.3)."),
+    "C06": dict(
+        category="other",
+        text="PARTIAL.  Proved in Coq: DataCarrierDetect's averaged level stays finite for every history of blocks incl. exact zeros, infinities and NaN "
+             "(the no-latch invariant, with fix 6204559), asserts/releases within an explicit number of blocks, and the pre-fix update is shown to latch; the "
+             "sync state machine has no dead state: from every discrete state, under carrier detect and a fair clock, within 6424 samples the decoder is "
+             "called or the receiver is listening again, a detection leads to a decode within 2036 samples, every unlock() re-arms the search.  NOT proved, "
+             "only run end to end: that a clean M17 signal produces those observations and steady reception within 400 frames after every lead-in history "
+             "(zeros, noise, constants, tones, earlier complete/truncated transmissions with gaps).",
+        design="§4 C06, §9", technique="Coq proof of DCD (extended rationals) and control-logic models + trace inclusion + end-to-end channel rig (test)",
+        note="Partial by design (DESIGN §9).  Rounding, signed zeros and float overflow are not modelled.  One known finding (receiver coasts on "
+             "garbage frames after an earlier transmission with a short gap and stays deaf)."),
 }
 
 NOT_YET = {}
